@@ -288,61 +288,83 @@ func check(c Case, st *rig.Stats) error {
 			case "any":
 				methods = nil
 			}
+			var retP *mux.Prefix[*rig.H]
+			var retR *mux.Resource[*rig.H]
+			var retRouter *mux.Router[*rig.H]
 			fp, fpan = rig.Try(func() {
 				switch {
 				case o.resource != nil:
 					switch s.Variant {
 					case "get":
-						o.resource.Get(h, ms...)
+						retR = o.resource.Get(h, ms...)
 					case "post":
-						o.resource.Post(h, ms...)
+						retR = o.resource.Post(h, ms...)
 					case "delete":
-						o.resource.Delete(h, ms...)
+						retR = o.resource.Delete(h, ms...)
 					case "put":
-						o.resource.Put(h, ms...)
+						retR = o.resource.Put(h, ms...)
 					case "patch":
-						o.resource.Patch(h, ms...)
+						retR = o.resource.Patch(h, ms...)
 					case "any":
-						o.resource.Any(h, ms...)
+						retR = o.resource.Any(h, ms...)
 					default:
-						o.resource.Handle(h, ms, s.Methods...)
+						retR = o.resource.Handle(h, ms, s.Methods...)
 					}
 				case o.prefix != nil:
 					switch s.Variant {
 					case "get":
-						o.prefix.Get(s.Text, h, ms...)
+						retP = o.prefix.Get(s.Text, h, ms...)
 					case "post":
-						o.prefix.Post(s.Text, h, ms...)
+						retP = o.prefix.Post(s.Text, h, ms...)
 					case "delete":
-						o.prefix.Delete(s.Text, h, ms...)
+						retP = o.prefix.Delete(s.Text, h, ms...)
 					case "put":
-						o.prefix.Put(s.Text, h, ms...)
+						retP = o.prefix.Put(s.Text, h, ms...)
 					case "patch":
-						o.prefix.Patch(s.Text, h, ms...)
+						retP = o.prefix.Patch(s.Text, h, ms...)
 					case "any":
-						o.prefix.Any(s.Text, h, ms...)
+						retP = o.prefix.Any(s.Text, h, ms...)
 					default:
-						o.prefix.Handle(s.Text, h, ms, s.Methods...)
+						retP = o.prefix.Handle(s.Text, h, ms, s.Methods...)
 					}
 				default:
 					switch s.Variant {
 					case "get":
-						fac.Get(pattern, h, ms...)
+						retRouter = fac.Get(pattern, h, ms...)
 					case "post":
-						fac.Post(pattern, h, ms...)
+						retRouter = fac.Post(pattern, h, ms...)
 					case "delete":
-						fac.Delete(pattern, h, ms...)
+						retRouter = fac.Delete(pattern, h, ms...)
 					case "put":
-						fac.Put(pattern, h, ms...)
+						retRouter = fac.Put(pattern, h, ms...)
 					case "patch":
-						fac.Patch(pattern, h, ms...)
+						retRouter = fac.Patch(pattern, h, ms...)
 					case "any":
-						fac.Any(pattern, h, ms...)
+						retRouter = fac.Any(pattern, h, ms...)
 					default:
-						fac.Handle(pattern, h, ms, s.Methods...)
+						retRouter = fac.Handle(pattern, h, ms, s.Methods...)
 					}
 				}
 			})
+			// the registering calls return "the" object for chaining: the program goes on with what was returned
+			if !fpan {
+				switch {
+				case o.resource != nil:
+					if retR == nil || retR.Pattern() != o.acc || retR.Router() != fac.Router {
+						return rig.Violf("facade-chain", "%s: the Resource call returned %v (pattern / router differ from the object it was called on, %q)", when, retR, o.acc)
+					}
+					o.resource = retR
+				case o.prefix != nil:
+					if retP == nil || retP.Pattern() != o.acc || retP.Router() != fac.Router {
+						return rig.Violf("facade-chain", "%s: the Prefix call returned %v (pattern / router differ from the object it was called on, %q)", when, retP, o.acc)
+					}
+					o.prefix = retP
+				default:
+					if retRouter != fac.Router {
+						return rig.Violf("facade-chain", "%s: the Router call returned another router", when)
+					}
+				}
+			}
 			// desugared: one Handle with the concatenated pattern and the concatenated lists
 			// (registration arguments innermost, then the prefix calls from the innermost outwards)
 			all := append([]types.Middleware[*rig.H]{}, ms...)
